@@ -127,6 +127,19 @@ def build(backend, tier):
     for k, q in deep.items():
         if q is not None:
             add(f"deep:{k}", q, md, env)
+    # ---- a sequence whose elements are injected calls, bound to a lambda parameter and consumed by SEVERAL loops: the call
+    # site is rendered once per consuming loop, each time with the loop variable of THAT loop as argument / receiver
+    seq_elems = {"fn": ("one(j.pt())", md, env), "fn2": ("inj(j.eta(), j.pt())", md, env)}
+    consumers = {
+        "two-sums": "(xs.Where(lambda x: x > 1).Sum(), xs.Where(lambda x: x > 2).Sum())",
+        "count-and-values": "(xs.Count(), xs.Select(lambda x: x * 2))",
+        "sum-count-sum": "(xs.Sum(), xs.Count(), xs.Sum() * 2)",
+        "values-then-sum": "(xs.Select(lambda x: x + 1), xs.Sum())",
+    }
+    for (en, (el, emd, eenv)), (cn, cons) in itertools.product(seq_elems.items(), consumers.items()):
+        add(f"reused-seq:{en}:{cn}", f"ds.Select(lambda e: {S}.Select(lambda j: {el})).Select(lambda xs: {cons})", emd, eenv)
+        # (a FILTERED sequence consumed twice, and a sequence iterated inside its own iteration, are C01's known finding
+        # F-seq-variable-reused whatever the elements are: not repeated here)
     add("deep:builtin-deltar-first-args", f"ds.Select(lambda e: DeltaR({S}.First().eta(), {S}.First().phi(), {B}.First().eta(), {B}.First().phi()))", [], {"DeltaR": DeltaR})
     add("deep:builtin-deltar-first-args-tuple", f"ds.Select(lambda e: ({S}.Count(), DeltaR({S}.First().eta(), {S}.First().phi(), 0.5, 0.25)))", [], {"DeltaR": DeltaR})
     # ---- 1- and 3-parameter functions, result types
@@ -179,6 +192,12 @@ def build(backend, tier):
     add("method2:with-method0-argument", per.format("j.lin(j.twicept(), j.eta())"), mm2, {"__method__lin": lambda self, a_, b_: self.pt() * a_ + b_, "__method__twicept": lambda self: self.pt() * 2})
     # ---- a method is bound to its object whatever expression yields the object: First(), an index, a step fused by func_adl
     tw = {"__method__twicept": lambda self: self.pt() * 2, "__method__scaled": lambda self, v: self.pt() * v}
+    for cn, cons in (("two-sums", "(xs.Where(lambda x: x > 1).Sum(), xs.Where(lambda x: x > 2).Sum())"), ("count-and-values", "(xs.Count(), xs.Select(lambda x: x * 2))"),
+                     ("sum-count-sum", "(xs.Sum(), xs.Count(), xs.Sum() * 2)")):
+        add(f"reused-seq:method0:{cn}", f"ds.Select(lambda e: {S}.Select(lambda j: j.twicept())).Select(lambda xs: {cons})", m0, tw)
+        add(f"reused-seq:method1:{cn}", f"ds.Select(lambda e: {S}.Select(lambda j: j.scaled(j.eta()))).Select(lambda xs: {cons})", mmd, tw)
+        if backend == "atlas":
+            add(f"reused-seq:builtin-method:{cn}", f"ds.Select(lambda e: {S}.Select(lambda j: j.getAttributeFloat('w'))).Select(lambda xs: {cons})", [], {})
     recv = {
         "first": f"ds.Select(lambda e: {S}.First().twicept())",
         "first-with-arg": f"ds.Select(lambda e: {S}.First().scaled(2))",
